@@ -214,7 +214,25 @@ func syncGen(r *Rng, tier string, emit func(string)) {
 			h := int(hs) // chain[i] has seq i+1, so chain[h-1] is the head, chain[h] the next block
 			blk := func(seq int) coin.SignedBlock { return chain[seq-1] }
 			var msgs [][]coin.SignedBlock
-			switch r.Intn(4) {
+			switch r.Intn(5) {
+			case 4: // a genuine block arrives too early (refused), later a FORGED copy of it arrives at the right
+				// moment, before the genuine one: having seen the genuine copy once must not vouch for the forgery
+				if h+2 <= len(chain) {
+					forged := blk(h + 2)
+					switch r.Intn(3) {
+					case 0:
+						forged.Sig = mustSign(forged, true)
+					case 1:
+						forged.Sig[r.Intn(64)] ^= 1 << uint(r.Intn(8))
+					default:
+						if nb, ok := substituteBody(forged); ok {
+							forged = nb
+						} else {
+							forged.Sig = mustSign(forged, true)
+						}
+					}
+					msgs = append(msgs, []coin.SignedBlock{blk(h + 2)}, []coin.SignedBlock{blk(h + 1), forged}, []coin.SignedBlock{blk(h + 2)})
+				}
 			case 0: // duplicate of a known block first
 				m := []coin.SignedBlock{blk(h), blk(h)}
 				for q := h + 1; q <= len(chain) && q <= h+3; q++ {
